@@ -139,11 +139,14 @@ def run(ctx):
             ok = rec == EMPTY
             what = f"returns {r.value}"
         site = site_text(r.state.get("ev.retsite", 0))
-        sig = (r.value, rec, site)
+        onexc = bool(r.state.get("ev.onexc", 0))
+        sig = (r.value == SENT, rec, onexc)
         if sig in seen:
             continue
         seen.add(sig)
-        construct = f"{Q}._got_user_exception::{site} [recorded={rec}]"
+        # keyed by what happened on the path, not by where the return statement sits
+        construct = (f"{Q}._got_user_exception::{'sentinel' if r.value == SENT else 'no sentinel'} returned, recorded={rec}, "
+                     f"onException {'called' if onexc else 'not called'}")
         ctx.check("R-SENTINEL-IFF-RECORDED", f"_got_user_exception: `{site}` {what} with recorded list {rec}", ret_stmts.get(r.state.get("ev.retsite", 0), gue), ok,
                   "the sentinel is returned although no exception was recorded (e.g. an empty MultipleExceptions): the stage counts as failed "
                   "but nothing selects an outcome, so startTest/stopTest are delivered with no outcome in between"
